@@ -97,9 +97,11 @@ Definition data_alloc_cont (a : allocst) (t : txst) (n : Z) : option region * al
         (Some reg, set_data a {| a_end := a_end (data a); a_free := f' |},
          tx_stats (tx_with t (moveToMeta t) td (tmeta t)) n 0 0 0 0 0 0)
     | (None, _) =>
-        (* avail = maxPages - endMarker, computed in unsigned arithmetic by the source *)
-        let av := (maxPages a - a_end (data a)) mod 2^64 in
-        if av <? n then (None, a, t)
+        (* bounded file: maxPages - endMarker pages are left in the area, none when the end marker is at or past
+           the limit (limit lowered on open, former overflow area); an unbounded file has no limit. (Before the
+           repair of D17 the source computed maxPages - endMarker in unsigned arithmetic without the guard.) *)
+        let av := if a_end (data a) <? maxPages a then maxPages a - a_end (data a) else 0 in
+        if (0 <? maxPages a) && (av <? n) then (None, a, t)
         else
           let regs := area_regions 4 (a_end (data a)) n in
           let reg := last regs {| rid := 0; rcount := 0 |} in
@@ -255,6 +257,21 @@ Record commitst := {
 
 Inductive cres := CPanic | COutOfMemory (a : allocst) (t : txst) | COk (c : commitst) (a : allocst) (t : txst).
 
+(* the tail of fileCommitAlloc: pages at the end of the file beyond the size limit are released (the file is
+   truncated to the new end marker after the commit); result: new meta list, new data list, new data end
+   marker, new meta end marker, overflow pages freed, data pages freed *)
+Definition commit_ends (newData newMeta : regions) (mx dEnd mEnd : Z) : regions * regions * Z * Z * Z * Z :=
+  let '(metaList, ovfFreed) := release_overflow newMeta mx mEnd in
+  let newEnd := mEnd - ovfFreed in
+  let dEnd1 := if (0 <? ovfFreed) && (dEnd <? mEnd) then newEnd else dEnd in
+  let mEnd1 := if 0 <? ovfFreed then newEnd else mEnd in
+  (* pages at the end of the data area are given back only when no overflow area follows it (repair of D18;
+     before, the release was unconditional and the meta end marker followed the data end marker) *)
+  let '(dataList, dataFreedN) := if mEnd1 <=? dEnd1 then release_overflow newData mx dEnd1 else (newData, 0) in
+  let dEnd2 := dEnd1 - dataFreedN in
+  let mEnd2 := if (0 <? dataFreedN) && (dEnd2 <=? mEnd1) then dEnd2 else mEnd1 in
+  (metaList, dataList, dEnd2, mEnd2, ovfFreed, dataFreedN).
+
 (* fileCommitPrepare + freeMetaRegions(freelistPages) + fileCommitAlloc
    (updated0: csAlloc.updated as set by the caller, incl. the "wal pages allocated" case) *)
 Definition commit_alloc (a : allocst) (t : txst) (updated : bool) : cres :=
@@ -279,15 +296,8 @@ Definition commit_alloc (a : allocst) (t : txst) (updated : bool) : cres :=
         else
           let newData := merge_region_lists (fregions (a_free (data a1))) dataFreed in
           let newMeta := merge_region_lists (fregions (a_free (meta a1))) metaFreed in
-          let dEnd := a_end (data a1) in
-          let mEnd := a_end (meta a1) in
-          let '(metaList, ovfFreed) := release_overflow newMeta (maxPages a1) mEnd in
-          let newEnd := mEnd - ovfFreed in
-          let dEnd1 := if (0 <? ovfFreed) && (dEnd <? mEnd) then newEnd else dEnd in
-          let mEnd1 := if 0 <? ovfFreed then newEnd else mEnd in
-          let '(dataList, dataFreedN) := release_overflow newData (maxPages a1) dEnd1 in
-          let dEnd2 := dEnd1 - dataFreedN in
-          let mEnd2 := if (0 <? dataFreedN) && (dEnd2 <=? mEnd1) then dEnd2 else mEnd1 in
+          let '(metaList, dataList, dEnd2, mEnd2, ovfFreed, dataFreedN) :=
+            commit_ends newData newMeta (maxPages a1) (a_end (data a1)) (a_end (meta a1)) in
           COk {| c_updated := true; c_allocRegions := regs; c_dataEnd := dEnd2; c_metaEnd := mEnd2;
                  c_metaList := metaList; c_dataList := dataList; c_dataFreed := dataFreedN; c_ovfFreed := ovfFreed |}
               a1 (tx_stats t1 0 0 0 0 0 ovfFreed 0)
